@@ -8,6 +8,7 @@ import (
 	"github.com/aergoio/aergo/v2/pkg/component"
 	"github.com/aergoio/aergo/v2/state"
 	"github.com/aergoio/aergo/v2/types"
+	"github.com/aergoio/aergo/v2/types/dbkey"
 	"github.com/aergoio/aergo/v2/types/message"
 	vf "github.com/aergoio/aergo/v2/zzvf"
 )
@@ -75,6 +76,14 @@ type vfUniverse struct {
 	f    int
 	all  []*types.Block
 	txs  []*types.Tx
+	txAt []vfTxPos // position of txs[i]
+}
+
+type vfTxPos struct {
+	side bool // on the side branch (else main)
+	no   int  // block height
+	idx  int
+	blk  *types.Block
 }
 
 // vfNewCS builds a ChainService over the two stores: only the parts the chain-index code touches.
@@ -93,17 +102,26 @@ func vfNewCS(kv *vf.KV, skv *vf.KV, cc *vfCC, sroot []byte) (*ChainService, *com
 	return cs, hub, log
 }
 
-func (u *vfUniverse) newTx() *types.Tx {
+func (u *vfUniverse) newTx(pos vfTxPos) *types.Tx {
 	tx := &types.Tx{Hash: vf.Bytes("txHash", 32), Body: &types.TxBody{Nonce: uint64(len(u.txs) + 1)}}
 	// a tx hash never equals a block hash (both are SHA-256 values of differently shaped inputs)
 	for _, b := range u.all {
 		vf.Assume(!bytes.Equal(tx.Hash, b.Hash))
 	}
+	// one chain never contains the same tx twice (nonce rule): distinct from the txs of its own branch and of its
+	// ancestors; whether it equals a tx of the competing branch is left to the solver
+	for i, o := range u.txs {
+		op := u.txAt[i]
+		if op.side == pos.side || (pos.side && op.no <= u.f) {
+			vf.Assume(!bytes.Equal(tx.Hash, o.Hash))
+		}
+	}
 	u.txs = append(u.txs, tx)
+	u.txAt = append(u.txAt, pos)
 	return tx
 }
 
-func (u *vfUniverse) newBlock(no uint64, prev *types.Block, ntx int, root []byte) *types.Block {
+func (u *vfUniverse) newBlock(no uint64, prev *types.Block, ntx int, root []byte, side bool) *types.Block {
 	var prevHash []byte
 	if prev != nil {
 		prevHash = prev.Hash
@@ -121,7 +139,7 @@ func (u *vfUniverse) newBlock(no uint64, prev *types.Block, ntx int, root []byte
 	}
 	u.all = append(u.all, blk)
 	for i := 0; i < ntx; i++ {
-		blk.Body.Txs = append(blk.Body.Txs, u.newTx())
+		blk.Body.Txs = append(blk.Body.Txs, u.newTx(vfTxPos{side: side, no: int(no), idx: i, blk: blk}))
 	}
 	return blk
 }
@@ -148,10 +166,10 @@ func vfBuild(a, b, f int, ntx func(branch string, i int) int, rootOf func(branch
 	if ntx == nil {
 		ntx = func(string, int) int { return 0 }
 	}
-	u.gen = u.newBlock(0, nil, 0, rootOf("gen", 0))
+	u.gen = u.newBlock(0, nil, 0, rootOf("gen", 0), false)
 	prev := u.gen
 	for i := 1; i <= a; i++ {
-		blk := u.newBlock(uint64(i), prev, ntx("main", i), rootOf("main", i))
+		blk := u.newBlock(uint64(i), prev, ntx("main", i), rootOf("main", i), false)
 		u.main = append(u.main, blk)
 		prev = blk
 	}
@@ -160,7 +178,7 @@ func vfBuild(a, b, f int, ntx func(branch string, i int) int, rootOf func(branch
 		prev = u.main[f-1]
 	}
 	for i := 1; i <= b; i++ {
-		blk := u.newBlock(uint64(f+i), prev, ntx("side", i), rootOf("side", i))
+		blk := u.newBlock(uint64(f+i), prev, ntx("side", i), rootOf("side", i), true)
 		u.side = append(u.side, blk)
 		prev = blk
 	}
@@ -219,4 +237,75 @@ func vfRev(l []*types.Block) []*types.Block {
 		out = append(out, l[i])
 	}
 	return out
+}
+
+// vfTxRange: number of txs of a block is a shape choice minTx..maxTx.
+func vfTxRange(minTx, maxTx int) func(string, int) int {
+	return func(string, int) int { return minTx + vf.Choice("ntx", maxTx-minTx+1) }
+}
+
+// newPath: the main chain after a reorganisation to the side branch.
+func (u *vfUniverse) newPath() []*types.Block {
+	p := []*types.Block{u.gen}
+	p = append(p, u.main[:u.f]...)
+	return append(p, u.side...)
+}
+
+func (u *vfUniverse) oldPath() []*types.Block {
+	return append([]*types.Block{u.gen}, u.main...)
+}
+
+// vfCheckChain asserts the C05 index invariant for the expected main chain path (path[h] has height h):
+// latest pointer (persisted and cached), cached best block, height index, hash->block, parent links, tx index.
+func vfCheckChain(ob string, cs *ChainService, kv *vf.KV, path []*types.Block) {
+	cdb := cs.cdb
+	tip := path[len(path)-1]
+	tipNo := uint64(len(path) - 1)
+	vf.Assert(cdb.getBestBlockNo() == tipNo, ob)
+	best, err := cdb.GetBestBlock()
+	vf.Assert(err == nil && best != nil, ob)
+	if best == nil {
+		return
+	}
+	vf.Assert(bytes.Equal(best.GetHash(), tip.Hash), ob)
+	vf.Assert(bytes.Equal(kv.Get(dbkey.LatestBlock()), types.BlockNoToBytes(tipNo)), ob)
+	// nothing is mapped above the tip
+	_, err = cdb.getHashByNo(tipNo + 1)
+	vf.Assert(err != nil, ob)
+	// walk the parent links from the best block down to genesis
+	cur := best
+	for h := len(path) - 1; h >= 0; h-- {
+		vf.Assert(cur.GetHeader().GetBlockNo() == uint64(h), ob)
+		vf.Assert(bytes.Equal(cur.GetHash(), path[h].Hash), ob)
+		hash, err := cdb.getHashByNo(uint64(h))
+		vf.Assert(err == nil, ob)
+		vf.Assert(bytes.Equal(hash, path[h].Hash), ob)
+		byNo, err := cdb.GetBlockByNo(uint64(h))
+		vf.Assert(err == nil && byNo != nil, ob)
+		if byNo != nil {
+			vf.Assert(bytes.Equal(byNo.GetHash(), path[h].Hash), ob)
+			vf.Assert(len(byNo.GetBody().GetTxs()) == len(path[h].GetBody().GetTxs()), ob)
+		}
+		if h > 0 {
+			vf.Assert(bytes.Equal(cur.GetHeader().GetPrevBlockHash(), path[h-1].Hash), ob)
+			cur, err = cdb.getBlock(cur.GetHeader().GetPrevBlockHash())
+			vf.Assert(err == nil && cur != nil, ob)
+			if cur == nil {
+				return
+			}
+		}
+	}
+	// every tx of a path block is reported at (block, idx)
+	for _, blk := range path {
+		for i, tx := range blk.GetBody().GetTxs() {
+			got, idx, err := cs.getTx(tx.Hash)
+			vf.Assert(err == nil && got != nil && idx != nil, ob)
+			if err != nil || got == nil || idx == nil {
+				continue
+			}
+			vf.Assert(bytes.Equal(got.GetHash(), tx.Hash), ob)
+			vf.Assert(bytes.Equal(idx.GetBlockHash(), blk.Hash), ob)
+			vf.Assert(idx.GetIdx() == int32(i), ob)
+		}
+	}
 }
